@@ -45,6 +45,12 @@ def run(ctx):
     specs += gen.gen_many(ctx.seed, n // 2, dict(CFG, p_coarse=0.5, coarse_any=False, T=(6, 8), freqs=['h'],
                                                  kinds={'SimpleContract': 2, 'Contract': 1, 'Transport': 1, 'Storage': 1, 'OrderBook': 4}), 'c17blk_')
     specs += near_neutral_specs(ctx.seed, 8 if ctx.tier == 'quick' else 40, 'c17nn_')
+    # as many scenarios as the problem has variables (a square array of cost samples)
+    sq = gen.gen_many(ctx.seed, 8 if ctx.tier == 'quick' else 40, dict(CFG, T=(3, 4), n_assets=(1, 1), nodes=(1, 2), p_coarse=0.0, p_market=1.0,
+                                                                     kinds={'Transport': 2, 'SimpleContract': 2}), 'c17sq_')
+    for sp in sq:
+        sp['opts']['slp'] = {'n': 'nvars', 'kf': 1, 'identical': False, 'robust_without_grid': False}
+    specs += sq
     for sp in specs:
         if 'slp' not in sp['opts']:
             rng = random.Random(str(sp['seed']) + '/slp')
@@ -65,7 +71,9 @@ def run(ctx):
         ctx.count('status:' + str(o.get('status')))
         if o.get('status') != 'ok':
             continue
-        so = sp['opts']['slp']
+        so = dict(sp['opts']['slp'])
+        if so.get('n') == 'nvars':
+            so['n'] = int(o.get('n_samples', 0))
         for a in sp['assets']:
             ctx.count('kind:' + a['kind'])
         ctx.count('samples:%d%s' % (so['n'], ' identical' if so.get('identical') else ''))
